@@ -142,7 +142,9 @@ def run(ctx):
                          tokens=['absent', 'stale'], local=[True])),
     ]
     if ctx.thorough():
-        fams.append(('race4', dict(starters=['s1', 's2', 's3', 's4'], markers=['unset'], crash=[False], upload=[True], modes=['on'],
+        fams.append(('race4', dict(starters=['s1', 's2', 's3', 's4'], markers=['unset'], crash=[True, False], upload=[True], modes=['on'],
+                                   tokens=['absent', 'fresh', 'stale'], local=[True])))
+        fams.append(('race5', dict(starters=['s1', 's2', 's3', 's4', 's5'], markers=['unset'], crash=[False], upload=[True], modes=['on'],
                                    tokens=['absent', 'fresh', 'stale'], local=[True])))
         fams.append(('marked3', dict(starters=['s1', 's2', 's3'], markers=['unset', '1', '2'], crash=[True, False], upload=[True], modes=['on'],
                                      tokens=['absent', 'stale'], local=[True])))
@@ -242,7 +244,7 @@ def run(ctx):
         rows.append(concretize(rid, st, rng, default=True))
         bystate[rid] = st
     base = len(rows)
-    for sweep in range(ctx.pick(1, 6)):
+    for sweep in range(ctx.pick(1, 20)):
         for st in table_states:
             if not st['row']['localOK'] and st['row']['token'] != 'absent':
                 continue
@@ -251,7 +253,7 @@ def run(ctx):
             bystate[rid] = st
     # several real processes started at once
     for tok in ('absent', 'fresh', 'stale'):
-        for k in range(ctx.pick(3, 12)):
+        for k in range(ctx.pick(3, 30)):
             rid += 1
             rows.append(dict(id=rid, kind='race', marker='unset', crash=False, upload=True, mode='on', token=tok, localOK=True, markerText='',
                              markerSet=False, modeText='on 2020-01-01', tokenAge=rng.choice(AGES[tok]), unusable='dangling', localPre=True,
@@ -330,9 +332,9 @@ def run(ctx):
             race_jobs.append(dict(kind='dfs', id=next_id[0], n=n, init=tok, ageSec=0, max=ctx.pick(1500, 0), why='dfs'))
             next_id[0] += 5000
         if ctx.thorough():
-            race_jobs.append(dict(kind='dfs', id=next_id[0], n=4, init=tok, ageSec=0, max=4000, why='dfs'))
-            next_id[0] += 5000
-        for k in range(ctx.pick(40, 400)):
+            race_jobs.append(dict(kind='dfs', id=next_id[0], n=4, init=tok, ageSec=0, max=8000, why='dfs'))
+            next_id[0] += 10000
+        for k in range(ctx.pick(40, 1500)):
             add_sched(rng.choice([2, 3, 3, 4, 5]), tok, [], 'random', 'random', age=rng.choice(AGES[tok]))
         add_sched(3, tok, [], 'rr', 'rr')
         add_sched(3, tok, [], 'stick', 'seq')
@@ -415,6 +417,21 @@ def run(ctx):
             raise Infra('SidecarTrace: %s\n%s' % (r.error, r.out[-2500:]))
     ctx.cov['traces_validated_against_impl'] += accepted
     ctx.cov['race_traces_accepted'] = accepted
+    # binding demonstration: one corrupted observation must make TLC reject the trace
+    demo = []
+    for k in runs_in[:30]:
+        seg = [dict(y) for y in tl[first_of[k]:(tl[first_of[k]]['last'])]]
+        seg[0]['last'] = len(demo) + len(seg)
+        demo += seg
+    victims = [i for i, y in enumerate(demo) if y['t'] != 'init']
+    if victims:
+        i = victims[len(victims) // 2]
+        demo[i] = dict(demo[i], token={'absent': 'fresh', 'fresh': 'absent', 'stale': 'absent'}[demo[i]['token']])
+        r = ctx.tlc('SidecarTrace', files={'c16trace.ndjson': ndjson_text(demo)}, cfg_text=tcfg, workers=1, label='SidecarTrace[binding demo]',
+                    count=False, timeout=600)
+        ctx.cov['binding_demo'] = 'corrupted token state at line %d: %s' % (i + 1, 'rejected (%s %s)' % (r.error, r.error_name) if r.error else 'ACCEPTED')
+        if not r.error:
+            raise Infra('binding demonstration failed: a corrupted trace was accepted by SidecarTrace')
     ctx.cov['divergences'] += len(diverged_runs)
     for d in diverged_runs[:8]:
         ctx.warn('MODEL-DIVERGENCE token race %s' % json.dumps(d)[:1200])
